@@ -452,6 +452,80 @@ def sharing_real(pp, kind, probe):
     return snapshot(pp, watch) != snap
 
 
+# ---- nested groups inside container tokens (a parse action may return tuples / lists / dicts of groups) -------------
+def cnorm(pp, x):
+    PR = pp.ParseResults
+    if isinstance(x, PR):
+        return ["PR", [cnorm(pp, v) for v in x], sorted([str(k), cnorm(pp, x[k])] for k in x.keys())]
+    if isinstance(x, tuple):
+        return ["T"] + [cnorm(pp, v) for v in x]
+    if isinstance(x, list):
+        return ["L"] + [cnorm(pp, v) for v in x]
+    if isinstance(x, dict):
+        return ["D"] + sorted([str(k), cnorm(pp, v)] for k, v in x.items())
+    return repr(x)
+
+
+def container_build(pp, case):
+    PR = pp.ParseResults
+    groups = []
+    for gd in case["groups"]:
+        g = PR(list(gd["toks"]))
+        for k, v in gd["names"]:
+            g[k] = v
+        groups.append(g)
+    ct = case["container"]
+    cont = tuple(groups) if ct == "tuple" else list(groups) if ct == "list" else {f"k{i}": g for i, g in enumerate(groups)}
+    toks = list(case["before"]) + [cont] + list(case["after"])
+    r = PR(toks)
+    for k, v in case["top_names"]:
+        r[k] = v
+    return r, len(case["before"])
+
+
+def container_groups(x):
+    return list(x.values()) if isinstance(x, dict) else list(x)
+
+
+def container_case(pp, case):
+    """None or a description: the copy has the original's views, and mutating a group inside the container token of the
+    copy (original) leaves the original (copy) unchanged"""
+    r, pos = container_build(pp, case)
+    c = make_copy(r, case["kind"])
+    if cnorm(pp, c) != cnorm(pp, r):
+        return {"what": "copy differs from original", "original": cnorm(pp, r), "copy": cnorm(pp, c)}
+    target, other, oname = (c, r, "original") if case["who"] == "copy" else (r, c, "copy")
+    before = cnorm(pp, other)
+    g = container_groups(target[pos])[case["gi"]]
+    op = case["op"]
+    if op == "append":
+        g.append("zz")
+    elif op == "setitem":
+        g[0] = "CH"
+    elif op == "setname":
+        g["nn"] = "vv"
+    elif op == "del":
+        del g[0]
+    elif op == "clear":
+        g.clear()
+    after = cnorm(pp, other)
+    if before != after:
+        return {"what": f"mutating a group inside a {case['container']} token of the {case['who']} changed the {oname}",
+                "before": before, "after": after}
+    return None
+
+
+def gen_container_case(rng):
+    ng = rng.randint(1, 2)
+    return {"container": rng.choice(["tuple", "list", "dict"]),
+            "groups": [{"toks": [rng.choice(["a", "b", "0"]) for _ in range(rng.randint(1, 3))],
+                        "names": [["n", rng.choice(["v", "w"])]] if rng.random() < 0.5 else []} for _ in range(ng)],
+            "before": ["x"] * rng.randint(0, 2), "after": ["y"] * rng.randint(0, 1),
+            "top_names": [["t", "s"]] if rng.random() < 0.5 else [],
+            "kind": rng.choice(sorted(DEEP)), "who": rng.choice(["copy", "copy", "original"]), "gi": rng.randrange(ng),
+            "op": rng.choice(["append", "setitem", "setname", "del", "clear"])}
+
+
 def run(ctx):
     pp = common.import_pyparsing()
     PR = pp.ParseResults
@@ -563,6 +637,21 @@ def run(ctx):
     ctx.count_cases("frames", n, outcomes=kinds, distinct_keys=range(nested),
                     samples=[FRAME_FIXED[1]])
     ctx.notes["frame_cases_with_nested_group_mutation"] = nested
+    # ---- groups inside container tokens, deep kinds (oracle only) ----------------------------------------------------
+    rng = ctx.subrng("container")
+    n, kinds = 0, {}
+    for _ in range(ctx.budget(600, 6000)):
+        case = gen_container_case(rng)
+        n += 1
+        kinds[f"{case['kind']}:{case['container']}"] = kinds.get(f"{case['kind']}:{case['container']}", 0) + 1
+        try:
+            bad = container_case(pp, case)
+        except prlib.ERRS as ex:
+            bad = {"what": f"{type(ex).__name__} escaped: {ex}"}
+        if bad is not None and len(ctx.fail_inputs) < 3:
+            ctx.fail_input("deep copy of a result whose token is a container of groups: " + bad["what"], case, "unchanged", bad,
+                           theorem="C11 frame (oracle only)", how="harness.props.c11.container_case(pp, case)")
+    ctx.count_cases("frames:container-tokens", n, outcomes=kinds)
     # ---- from_dict (oracle only) ----------------------------------------------------------------------------------
     rng = ctx.subrng("fromdict")
     n = 0
@@ -607,6 +696,11 @@ def replay(data):
     case = data.get("case")
     if isinstance(case, dict) and "steps" in case:
         return frame_case(pp, case) is not None
+    if isinstance(case, dict) and "container" in case:
+        try:
+            return container_case(pp, case) is not None
+        except prlib.ERRS:
+            return True
     if isinstance(case, dict) and "objs" in case:
         r = concat_check(pp, case, allow_region=True)
         return r is not None and r != "region"
